@@ -481,4 +481,146 @@ theorem bindPos_spec {α} (pos : List (Nat × Dflt)) (args : List (Option α))
       | list s => rw [hp2] at h; simp at h
       | other s => rw [hp2] at h; simp at h
 
+/-! ### `separate_input_attributes_from_arguments` -/
+
+
+/-- invariant of the loop with `fill_defaults=False`: every attribute collected is a value the caller wrote -/
+theorem sepLoop_nofill_written (args : List Nat) (kwargs : List (Nat × Nat))
+    (ps : List SigParam) (rest ins : List Nat) (attrs : List (Nat × Nat)) (hv : Bool)
+    (hrest : ∀ a ∈ rest, a ∈ args)
+    (hacc : ∀ kv ∈ attrs, kv.2 ∈ args ∨ kv ∈ kwargs)
+    {ins' : List Nat} {attrs' : List (Nat × Nat)} {hv' : Bool} {rest' : List Nat}
+    (h : sepLoop kwargs false ps rest ins attrs hv = .ok (ins', attrs', hv', rest')) :
+    ∀ kv ∈ attrs', kv.2 ∈ args ∨ kv ∈ kwargs := by
+  induction ps generalizing rest ins attrs hv with
+  | nil =>
+    simp only [sepLoop, Except.ok.injEq, Prod.mk.injEq] at h
+    rcases h with ⟨_, rfl, _, _⟩; exact hacc
+  | cons p ps ih =>
+    simp only [sepLoop] at h
+    split at h
+    · exact ih _ _ _ _ (by intro a ha; cases ha) hacc h
+    · cases rest with
+      | cons a rest1 =>
+        simp only at h
+        have hr1 : ∀ x ∈ rest1, x ∈ args := fun x hx => hrest x (List.mem_cons_of_mem _ hx)
+        split at h
+        · exact ih _ _ _ _ hr1 hacc h
+        · refine ih _ _ _ _ hr1 ?_ h
+          intro kv hkv
+          rcases List.mem_append.mp hkv with h1 | h1
+          · exact hacc kv h1
+          · simp only [List.mem_singleton] at h1; subst h1
+            exact Or.inl (hrest a List.mem_cons_self)
+      | nil =>
+        simp only at h
+        cases hk : findTok p.name kwargs with
+        | some v =>
+          rw [hk] at h; simp only at h
+          have hmem : (p.name, v) ∈ kwargs := by
+            clear h ih hacc hrest
+            induction kwargs with
+            | nil => simp [findTok] at hk
+            | cons q qs ihq =>
+              simp only [findTok] at hk
+              split at hk
+              next hq =>
+                simp only [beq_iff_eq] at hq
+                simp only [Option.some.injEq] at hk
+                have : q = (p.name, v) := Prod.ext hq hk
+                rw [this]; exact List.mem_cons_self
+              next => exact List.mem_cons_of_mem _ (ihq hk)
+          split at h
+          · exact ih _ _ _ _ (by intro a ha; cases ha) hacc h
+          · refine ih _ _ _ _ (by intro a ha; cases ha) ?_ h
+            intro kv hkv
+            rcases List.mem_append.mp hkv with h1 | h1
+            · exact hacc kv h1
+            · simp only [List.mem_singleton] at h1; subst h1; exact Or.inr hmem
+        | none =>
+          rw [hk] at h; simp only at h
+          split at h
+          · simp only [Bool.false_eq_true, if_false] at h
+            exact ih _ _ _ _ (by intro a ha; cases ha) hacc h
+          · split at h
+            · cases h
+            · exact ih _ _ _ _ (by intro a ha; cases ha) hacc h
+
+
+
+/-- attribute lists of the two modes: `F` (no fill) is `T` (fill) without some declared defaults -/
+def FillRel (params : List SigParam) (F T : List (Nat × Nat)) : Prop :=
+  List.Sublist F T ∧ ∀ kv ∈ T, kv ∈ F ∨ ∃ p ∈ params, p.isInput = false ∧ p.name = kv.1 ∧ p.dflt = some kv.2
+
+theorem FillRel.snoc_both {params F T} (h : FillRel params F T) (x : Nat × Nat) :
+    FillRel params (F ++ [x]) (T ++ [x]) := by
+  refine ⟨List.Sublist.append h.1 (List.Sublist.refl _), ?_⟩
+  intro kv hkv
+  rcases List.mem_append.mp hkv with h1 | h1
+  · rcases h.2 kv h1 with h2 | h2
+    · exact Or.inl (List.mem_append_left _ h2)
+    · exact Or.inr h2
+  · exact Or.inl (List.mem_append_right _ h1)
+
+theorem FillRel.snoc_default {params F T} (h : FillRel params F T) (p : SigParam) (hp : p ∈ params)
+    (hi : p.isInput = false) (d : Nat) (hd : p.dflt = some d) :
+    FillRel params F (T ++ [(p.name, d)]) := by
+  refine ⟨List.Sublist.trans h.1 (List.sublist_append_left _ _), ?_⟩
+  intro kv hkv
+  rcases List.mem_append.mp hkv with h1 | h1
+  · exact h.2 kv h1
+  · simp only [List.mem_singleton] at h1; subst h1
+    exact Or.inr ⟨p, hp, hi, rfl, hd⟩
+
+theorem sepLoop_fill_vs_nofill (params : List SigParam) (kwargs : List (Nat × Nat))
+    (ps : List SigParam) (hps : ∀ p ∈ ps, p ∈ params) (rest ins : List Nat) (F T : List (Nat × Nat)) (hv : Bool)
+    (hrel : FillRel params F T)
+    {ins' : List Nat} {T' : List (Nat × Nat)} {hv' : Bool} {rest' : List Nat}
+    (h : sepLoop kwargs true ps rest ins T hv = .ok (ins', T', hv', rest')) :
+    ∃ F', sepLoop kwargs false ps rest ins F hv = .ok (ins', F', hv', rest') ∧ FillRel params F' T' := by
+  induction ps generalizing rest ins F T hv with
+  | nil =>
+    simp only [sepLoop, Except.ok.injEq, Prod.mk.injEq] at h
+    rcases h with ⟨rfl, rfl, rfl, rfl⟩
+    exact ⟨F, rfl, hrel⟩
+  | cons p ps ih =>
+    have hps' : ∀ q ∈ ps, q ∈ params := fun q hq => hps q (List.mem_cons_of_mem _ hq)
+    have hp : p ∈ params := hps p List.mem_cons_self
+    simp only [sepLoop] at h ⊢
+    split at h
+    next hc => simp only [hc, if_true]; exact ih hps' _ _ _ _ _ hrel h
+    next hc =>
+      simp only [hc]
+      cases rest with
+      | cons a rest1 =>
+        simp only at h ⊢
+        split at h
+        next hi => simp only [hi, if_true]; exact ih hps' _ _ _ _ _ hrel h
+        next hi => simp only [hi]; exact ih hps' _ _ _ _ _ (hrel.snoc_both _) h
+      | nil =>
+        simp only at h ⊢
+        cases hk : findTok p.name kwargs with
+        | some v =>
+          rw [hk] at h; simp only at h ⊢
+          split at h
+          next hi => simp only [hi, if_true]; exact ih hps' _ _ _ _ _ hrel h
+          next hi => simp only [hi]; exact ih hps' _ _ _ _ _ (hrel.snoc_both _) h
+        | none =>
+          rw [hk] at h; simp only at h ⊢
+          cases hd : (if p.isInput = true then none else p.dflt) with
+          | some d =>
+            rw [hd] at h; simp only [if_true] at h
+            simp only [Bool.false_eq_true, if_false]
+            have hi : p.isInput = false := by
+              cases hpi : p.isInput with
+              | true => simp [hpi] at hd
+              | false => rfl
+            have hd' : p.dflt = some d := by simpa [hi] using hd
+            exact ih hps' _ _ _ _ _ (hrel.snoc_default p hp hi d hd') h
+          | none =>
+            rw [hd] at h; simp only at h ⊢
+            split at h
+            · cases h
+            · next hr => simp only [hr]; exact ih hps' _ _ _ _ _ hrel h
+
 end OV.C17
